@@ -302,6 +302,17 @@ fn classes(p: &Parsed, src: &str) -> Vec<&'static str> {
             c.push(x)
         }
     };
+    let is_comment = |k: TokenKind| matches!(k, TokenKind::SingleLineComment | TokenKind::MultiLineComment);
+    // a comment in front of the first token on its line (leading trivia of the first syntax token): printed twice
+    if pre.get_leading_trivia(0, &toks).iter().any(|t| is_comment(t.kind)) {
+        add("first-line-comment", &mut c);
+    }
+    let has_comments = |token_index: usize| -> bool {
+        match pre.token_indices.iter().position(|&x| x == token_index) {
+            Some(i) => pre.get_leading_trivia(i, &toks).iter().chain(pre.get_trailing_trivia(i, &toks).iter()).any(|t| is_comment(t.kind)),
+            None => false,
+        }
+    };
     while let Some(id) = stack.pop() {
         if let GreenNode::Internal { kind, children, .. } = arena.get(id) {
             let child_kind = |i: usize| -> Option<SyntaxKind> { children.get(i).and_then(|&ch| arena.kind(ch)) };
@@ -316,6 +327,13 @@ fn classes(p: &Parsed, src: &str) -> Vec<&'static str> {
                 SyntaxKind::MatchExpr | SyntaxKind::MatchArm | SyntaxKind::MatchArmList => add("match", &mut c),
                 SyntaxKind::RecordPattern => add("record-pattern", &mut c),
                 SyntaxKind::RecordType => add("record-type", &mut c),
+                SyntaxKind::TupleType => {
+                    // `((float), float)`: the parentheses of a parenthesised element are direct children of the TupleType node
+                    let opens = (0..children.len()).filter(|&i| child_tok(i) == Some(TokenKind::ParenBegin)).count();
+                    if opens >= 2 {
+                        add("paren-type-in-tuple-type", &mut c);
+                    }
+                }
                 SyntaxKind::ParamList => {
                     for i in 0..children.len() {
                         if matches!(child_kind(i), Some(SyntaxKind::TypeAnnotation) | Some(SyntaxKind::ParamDefault)) {
@@ -360,6 +378,16 @@ fn classes(p: &Parsed, src: &str) -> Vec<&'static str> {
                     }
                     if elems == 1 && commas >= 1 {
                         add("one-tuple", &mut c);
+                    }
+                    // the comma of `(x,)` carries a comment (print_tuple_expr skips the comma token with its trivia)
+                    if elems == 1 && commas == 1 {
+                        for &ch in children.iter() {
+                            if let GreenNode::Token { token_index, .. } = arena.get(ch) {
+                                if toks[*token_index].kind == TokenKind::Comma && has_comments(*token_index) {
+                                    add("one-tuple-comma-comment", &mut c);
+                                }
+                            }
+                        }
                     }
                 }
                 SyntaxKind::LambdaExpr => {
